@@ -259,8 +259,17 @@ def run(job, seed):
     bnd = job['bound']
     stats = {'executions': 0}
     try:
+        # warm-up: the first traced execution of a process differs from all
+        # later ones (opcode instrumentation is installed lazily), so it is
+        # thrown away, and the next two must agree point for point before
+        # anything is explored
+        sched.Execution(first=job['first'], preemptions=[], **make()).run()
         ex0 = sched.Execution(first=job['first'], preemptions=[],
                               **make()).run()
+        ex1 = sched.Execution(first=job['first'], preemptions=[],
+                              **make()).run()
+        if ex0.trace != ex1.trace or ex0.result != ex1.result:
+            raise core.HarnessError('two runs of the empty schedule differ')
         stats['executions'] += 1
         if job['shard'] == 0:
             check(ex0, [])
